@@ -872,6 +872,7 @@ impl<'a> Ev<'a> {
                 };
                 Ok(Val::Cat(CatT { loc, rule, x }))
             }
+            Val::Str(t) if name == "trim" && args.is_empty() => Ok(Val::Str(Term::App("trim".into(), vec![Arg::T(t)]))),
             v if name == "clone" => Ok(v),
             v if name == "into_view" => Ok(v),
             v if name == "to_string" => Ok(Val::Str(self.render(&v)?)),
@@ -921,6 +922,17 @@ impl<'a> Ev<'a> {
             Pat::Ident(pi) if pi.subpat.is_none() => {
                 // could be a binding; generated code never binds in match arms
                 Err(format!("identifier pattern {}", pi.ident))
+            }
+            Pat::Lit(l) if matches!(l.lit, syn::Lit::Str(_)) => {
+                let lit = match &l.lit {
+                    syn::Lit::Str(s) => s.value(),
+                    _ => unreachable!(),
+                };
+                match scrut {
+                    Val::Str(Term::Str(s)) => Ok(if *s == lit { Cond::True } else { Cond::False }),
+                    Val::Str(t) => Ok(Cond::StrEq(Box::new(t.clone()), lit)),
+                    other => Err(format!("string pattern against {}", short(other))),
+                }
             }
             Pat::Lit(l) => {
                 let x = scrut_num(scrut)?;
